@@ -74,6 +74,10 @@ def gen_history(ctx, hid, sc, nops):
                 files.append(H.newfile(""))                              # empty extra file
             h = nexth
             nexth += 1
+            if rng.random() < 0.08:
+                # the file exists but cannot be opened (no file descriptor left): the call fails, nothing may stay allocated
+                H.ops.append(("h_read_nofd %d %s" % (h, files[0]), [h], None))
+                continue
             H.ops.append(("h_read %d %s" % (h, " ".join(files)), [h], None))
             live[h] = ("read", kind)
             sets.append((kind, files))
@@ -213,6 +217,12 @@ def run(ctx):
         out = H.newfile(None, "out")
         H.ops = [("h_read 0 %s" % f, [0], None), ("h_run 0 5 -1 -1 -1 %d" % ctx.rng.choice([1, 4]), [0], None),
                  ("h_write 0 %s %s" % (out, ctx.rng.choice(["fasta", "msf", "clu"])), [0], out), ("h_free 0", [0], None)]
+        khists.append(H)
+    for i in range(2 if ctx.quick else 10):
+        H = Hist(2000 + i, sc)
+        recs = gen.family(ctx.rng, "protein", 4, 30)
+        f = H.newfile(gen.fasta_text(recs))
+        H.ops = [("h_read_nofd 0 %s" % f, [0], None), ("h_read 1 %s" % f, [1], None), ("h_read_nofd 1 %s" % f, [1], None), ("h_free 1", [1], None)]
         khists.append(H)
     with ThreadPoolExecutor(min(C.NCPU, 8)) as ex:
         ledgers = list(ex.map(ledger, hists + khists))
